@@ -94,6 +94,12 @@ pub enum Op {
     /// releases the guards and polls to completion
     #[serde(default)]
     held_at: Vec<u16>,
+    /// IterSnapshot only (it reads every value at `next()` time): after the item with this index an
+    /// overwrite (`false`) or remove (`true`) of the given key completes; every item yielded
+    /// afterwards is judged as a read at that moment (C11: "iteration ... never returns an
+    /// overwritten value after the overwrite completed, or a removed value")
+    #[serde(default)]
+    mutate: Option<(u16, u32, bool)>,
   },
   Maint { a: bool },
   Advance(Adv),
@@ -259,8 +265,8 @@ pub fn op_strategy(f: Focus) -> BoxedStrategy<Op> {
       (a(), key()).prop_map(|(a, k)| Op::EntryGet { a, k }),
       (a(), proptest::collection::vec(key(), 0..6)).prop_map(|(a, keys)| Op::MultiGet { a, keys }),
     ],
-    w[8] => (iter_kind(), 0u8..6, proptest::option::weighted(0.35, (0u16..200, adv())), proptest::option::weighted(0.4, proptest::collection::vec(prop_oneof![3 => 0u16..8, 2 => 60u16..70, 1 => 0u16..200], 1..4)))
-      .prop_map(|(kind, batch, adv, held)| Op::Iter { kind, batch, adv, held_at: if kind == IterKind::Stream { held.unwrap_or_default() } else { vec![] } }),
+    w[8] => (iter_kind(), 0u8..6, proptest::option::weighted(0.35, (0u16..200, adv())), proptest::option::weighted(0.4, proptest::collection::vec(prop_oneof![3 => 0u16..8, 2 => 60u16..70, 1 => 0u16..200], 1..4)), proptest::option::weighted(0.5, (prop_oneof![4 => 1u16..4, 1 => 1u16..70], key(), any::<bool>())))
+      .prop_map(|(kind, batch, adv, held, mutate)| Op::Iter { kind, batch, adv, held_at: if kind == IterKind::Stream { held.unwrap_or_default() } else { vec![] }, mutate: if kind == IterKind::IterSnapshot { mutate } else { None } }),
     w[9] => a().prop_map(|a| Op::Maint { a }),
     w[10] => adv().prop_map(Op::Advance),
     w[11] => a().prop_map(|a| Op::Metrics { a }),
